@@ -1754,7 +1754,7 @@ def c17(ctx):
     res = Result()
     res.rule = ('(a) vector-backed structural entries (owned, string, slice, option, result, tuple, Vec-as-region; Vec index '
                 'containers): from empty and from populated regions, reserve_items(batch) / reserve_regions([src]) / '
-                'merge_regions([src]) then pushing exactly the announced contents by reference: every capacity reported by '
+                'merge_regions([src]) then pushing exactly the announced contents by reference (one history in three: in every input form the entry offers, chosen per push; capacities only): every capacity reported by '
                 'heap_size must be unchanged and the allocator must not be called during the pushes; the capacities after '
                 'the reservation must cover what the Coq model says is needed (used + announced bytes per backing vector, '
                 'the premise of theorem presize_no_growth); (b) every catalogue entry: n = 2^6..2^k items pushed from empty, '
@@ -1775,7 +1775,14 @@ def c17(ctx):
             if kind == 'items': ops += [('resitems', 0, batch, (it + ctx.rng.randrange(2)) % len(catalogue.reserve_forms(e)))]   # every announcing form in turn
             elif kind == 'regions': ops += [('push', 1, f, v) for v in batch] + [('resregs', 0, [1])]
             else: ops = [('push', 1, f, v) for v in batch] + [('merge', 0, [1])]
-            ops += [('heap', 0), ('allocs', 0)] + [('push', 0, f, v) for v in batch] + [('allocs', 0), ('heap', 0), ('probe', 0)]
+            if it % 3 == 2:
+                # the announced contents pushed in EVERY input form the entry offers (owned vectors, arrays, iterators, ...),
+                # a form chosen per push: the capacities must not move whatever the form (the allocator clause is left to the
+                # by-reference histories: the harness's own form conversions, e.g. `v.clone()`, allocate)
+                nf = len(forms(e))
+                ops += [('heap', 0)] + [('push', 0, ctx.rng.randrange(nf), v) for v in batch] + [('heap', 0), ('probe', 0)]
+            else:
+                ops += [('heap', 0), ('allocs', 0)] + [('push', 0, f, v) for v in batch] + [('allocs', 0), ('heap', 0), ('probe', 0)]
             cases.append((name, ops)); note_case(res, name, ops)
     import math
     # 2^k pushes per entry.  The extracted model keeps indices as unary nat (ExtrOcamlBasic only), so the indices it
@@ -2113,6 +2120,16 @@ def c07(ctx):
         ctx.rng.shuffle(seq)
         ops = [('push', 0, 0, v) for v in seq] + [('merge', 1, [0]), ('push', 1, 0, hot), ('push', 1, 0, warm), ('push', 1, 0, cold[0]), ('read', 1)]
         cases.append(('cdc', ops)); res.nontrivial.add('hotlast%d' % it)
+    # the dominating string first, then more than two compactions' worth of distinct rarer strings that all sort BEFORE it,
+    # in order (no shuffle: the dominating string is never seen again after the compactions start).  By mg_accuracy /
+    # dominant_one_byte its estimate stays within total/513 + #compactions of its count, so it must get a tag.
+    for it in range(2 if not ctx.thorough else 6):
+        hot = [122, 122, 122]; ncold = 1100 + 150 * it
+        cold = [[97] + list(('%05d' % i).encode()) for i in range(ncold)]
+        if it % 2 == 1: cold.reverse()
+        ops = [('push', 0, 0, hot)] * (1500 + 500 * it) + [('push', 0, 0, v) for v in cold] + \
+              [('merge', 1, [0]), ('push', 1, 0, hot), ('push', 1, 0, cold[0]), ('push', 1, 0, hot), ('read', 1)]
+        cases.append(('cdc', ops)); res.nontrivial.add('hotfirst%d' % it)
     # the tag table filled to its last entry: first bytes cover all but tag 255 (one source), all but tags 0 and 255
     # (two sources), and a dictionary of more strings than free tags whose lowest-ranked member takes the last tag
     hot = [254, 1, 2, 3, 4, 5]; second = [9, 8, 7, 6, 5]
